@@ -1,37 +1,99 @@
 --------------------------- MODULE Aggregators_Gen ---------------------------
 (* B3 with a history variable + B1 generator.                                   *)
-(* Every reachable state is one history (a sequence of samples / trims).  TLC    *)
-(* checks on it that the state machines hold the order-free bag fold of the      *)
-(* history (FoldOK), that every permutation of the history gives the same state  *)
-(* (PermInv, count-style aggregators), the simulation relation of the            *)
-(* implementation-shaped layer, and prints one vector per history: the history   *)
-(* and every accessor value the specification expects after it (Dump).           *)
+(* Every reachable state is one history: a sequence of samples, trims and        *)
+(* OBSERVATIONS (accessor calls) in every order - one life of one aggregator     *)
+(* instance.  TLC checks on it that the state machines hold the order-free bag   *)
+(* fold of the samples whatever was read in between (FoldOK), that every         *)
+(* permutation of the samples gives the same state (PermInv, count-style         *)
+(* aggregators), for the numerical aggregator that the moments of the full       *)
+(* (large) values are the shifted moments of the deltas (FoldOK, exact), the     *)
+(* simulation relation of the implementation-shaped layer, and prints one vector *)
+(* per history: the history - with what every accessor must return at each "o"   *)
+(* step - and what every accessor must return after it (Dump).                   *)
 EXTENDS AggregatorsImpl, Json
 
-VARIABLE hist      \* sequence of [op |-> "s" | "t", el |-> bytes, p |-> predicate, nsel |-> cells selected by the trim]
+\* sequence of [op |-> "s" | "t" | "o", el |-> bytes, p |-> predicate, nsel |-> cells selected by the trim,
+\*              obs |-> what every accessor must return at an "o" step,
+\*              dec |-> how the specification reads the sample: the typed entry points (SampleValue /
+\*                      SampleItem / Samplef) called with these arguments must act like Sample(el)]
+\* The bindings replay a history on a SINGLE long-lived object, calling every accessor at each
+\* "o" step and once more at the end.
+VARIABLE hist
+CONSTANT ObsRepeat     \* TRUE: "o" steps may follow each other (idempotence of the accessors)
 NoPred == Pred("none", <<>>, <<>>, 0)
+NoObs == [none |-> TRUE]
 
+\* ---- expected observations -------------------------------------------------
+Pairs(f) == {<<k, f[k]>> : k \in DOMAIN f}
+QPoints == {0, 125, 250, 500, 750, 900, 990, 999, 1000}
+ObsCtr == [items |-> Pairs(ctr.cnt), total |-> CtrTotal(ctr), groups |-> Cardinality(DOMAIN ctr.cnt), errors |-> ctr.err]
+ObsSub == [subkeys |-> GridBs(sub),
+           rows |-> {<<a, GridRowSum(sub, a), {<<b, GridAt(sub, a, b)>> : b \in GridBs(sub)}>> : a \in GridAs(sub)},
+           errors |-> sub.err]
+ObsTbl == [cols |-> GridBs(tbl), dirty |-> tbl.dirty,
+           rows |-> {<<a, GridRowSum(tbl, a), {<<b, GridAt(tbl, a, b)>> : b \in GridBs(tbl)}>> : a \in GridAs(tbl)},
+           coltot |-> {<<b, GridColSum(tbl, b)>> : b \in GridBs(tbl)},
+           sum |-> GridSum(tbl), min |-> GridMinMax(tbl)[1], max |-> GridMinMax(tbl)[2], errors |-> tbl.err]
+\* numerical: every value is RELATIVE TO THE BASE (milli units); the standard deviation is absolute
+ObsNum ==
+  LET m == IF num.n >= 1 THEN BToInt(num.s1) \div num.n ELSE 0
+      var == NumVar(num)
+      r == IF num.n >= 2 THEN ISqrt(BToInt(var[1]) \div BToInt(var[2])) ELSE 0
+      k == NumSlack(num.n, MCBase)
+  IN [n |-> num.n, errors |-> num.err,
+      mean3 |-> IF num.n >= 1 THEN {x \in (m - 1 - k)..(m + 2 + k) : MeanOKs(num, x, k)} ELSE {},
+      sd3   |-> IF num.n >= 2 THEN {x \in (IF r < 2 + k THEN 0 ELSE r - 2 - k)..(r + 3 + k) : SdOKv(var, x, k)} ELSE {},
+      min3 |-> IF num.n >= 1 THEN NumMin(num) ELSE 0, max3 |-> IF num.n >= 1 THEN NumMax(num) ELSE 0,
+      med3 |-> IF num.n >= 1 THEN <<ValueAt(num, MedianIdx(num.n), FALSE), ValueAt(num, MedianIdx(num.n), TRUE)>> ELSE <<>>,
+      modes |-> IF num.n >= 1 THEN Modes(num) ELSE {},
+      q |-> IF num.n >= 1 THEN {<<p3, ValueAt(num, QuantIdx(num.n, p3), FALSE), ValueAt(num, QuantIdx(num.n, p3), TRUE)>> :
+                                 p3 \in {p \in QPoints : QuantDomain(num.n, p)}} ELSE {}]
+ObsAcc == [data |-> Pairs(acc)]
+Obs == CASE Which = "ctr" -> ObsCtr [] Which = "sub" -> ObsSub [] Which = "tbl" -> ObsTbl
+         [] Which = "num" -> ObsNum [] Which = "acc" -> ObsAcc
+AccCfgOut == [groups |-> [j \in 1..Len(AccCfg.groups) |-> <<AccCfg.groups[j].name, PrintExpr(AccCfg.groups[j].e)>>],
+              cols |-> [j \in 1..Len(AccCfg.cols) |-> <<AccCfg.cols[j].name, AccCfg.cols[j].init, PrintExpr(AccCfg.cols[j].e)>>]]
+
+\* ---- the machine with its history ---------------------------------------------
+NoDec == [ok |-> FALSE, keys |-> <<>>, inc |-> 0]
+DecOf(el) ==
+  CASE Which = "ctr" -> Decode(el, 1)
+    [] Which \in {"sub", "tbl"} -> Decode(el, 2)             \* tbl: keys = <<column, row>>
+    [] Which = "num" -> LET d == NumParseB(el, MCBase) IN [ok |-> d.c = "num", keys |-> <<>>, inc |-> d.v]   \* delta, milli
+    [] OTHER -> NoDec
+Step(op, el, p, nsel, obs) ==
+  [op |-> op, el |-> el, p |-> p, nsel |-> nsel, obs |-> obs, dec |-> IF op = "s" THEN DecOf(el) ELSE NoDec]
 GInit == Init /\ hist = <<>>
 GNext ==
   /\ len < MaxLen /\ len' = len + 1
-  /\ \/ \E el \in Elems : Sample(el) /\ hist' = Append(hist, [op |-> "s", el |-> el, p |-> NoPred, nsel |-> 0])
-     \/ \E p \in Preds : Trim(p) /\ hist' = Append(hist, [op |-> "t", el |-> <<>>, p |-> p, nsel |-> Cardinality(TblTrimmed(tbl, p))])
+  /\ \/ \E el \in Elems : Sample(el) /\ hist' = Append(hist, Step("s", el, NoPred, 0, NoObs))
+     \/ \E p \in Preds : Trim(p) /\ hist' = Append(hist, Step("t", <<>>, p, Cardinality(TblTrimmed(tbl, p)), NoObs))
+     \/ /\ (IF ObsRepeat \/ hist = <<>> THEN TRUE ELSE hist[Len(hist)].op # "o")
+        /\ Observe /\ hist' = Append(hist, Step("o", <<>>, NoPred, 0, Obs))
 
-Samples == [i \in 1..Len(hist) |-> hist[i].el]
-NoTrim  == \A i \in 1..Len(hist) : hist[i].op = "s"
+Samples == LET F[i \in 0..Len(hist)] ==
+                 IF i = 0 THEN <<>> ELSE IF hist[i].op = "s" THEN Append(F[i - 1], hist[i].el) ELSE F[i - 1]
+           IN F[Len(hist)]
+NoTrim  == \A i \in 1..Len(hist) : hist[i].op # "t"
+\* An "o" step changes neither the abstract state nor the samples of the history, so the fold
+\* laws are evaluated on the histories without one (the others repeat the same computation);
+\* that reads do not disturb the implementation-shaped state is what Sim says on ALL histories.
+Plain   == \A i \in 1..Len(hist) : hist[i].op # "o"
 
+\* the state is the bag fold of the samples
 FoldOK ==
+  Plain =>
   CASE Which = "ctr" -> ctr = CtrFold(Samples)
     [] Which = "sub" -> sub = SubFold(Samples)
     [] Which = "tbl" -> NoTrim => tbl = TblFold(Samples)
-    [] Which = "num" -> num = NumFold(Samples)
+    [] Which = "num" -> /\ num = NumFoldB(Samples, MCBase)
+                        /\ FullMomentsOK(num, MCBase, Samples)     \* exact moments of the full values
     [] Which = "acc" -> acc = AccFold(AccCfg, Samples)
-
 RECURSIVE RunCtr(_, _)  RECURSIVE RunSub(_, _)  RECURSIVE RunTbl(_, _)  RECURSIVE RunNum(_, _)
 RunCtr(s, h) == IF h = <<>> THEN s ELSE RunCtr(CtrStep(s, h[1]), Tail(h))
 RunSub(s, h) == IF h = <<>> THEN s ELSE RunSub(SubStep(s, h[1]), Tail(h))
 RunTbl(s, h) == IF h = <<>> THEN s ELSE RunTbl(TblStep(s, h[1]), Tail(h))
-RunNum(s, h) == IF h = <<>> THEN s ELSE RunNum(NumStep(s, h[1]), Tail(h))
+RunNum(s, h) == IF h = <<>> THEN s ELSE RunNum(NumStepB(s, h[1], MCBase), Tail(h))
 RECURSIVE RunSk(_, _)  RECURSIVE RunTb(_, _)
 RunSk(s, h) == IF h = <<>> THEN s ELSE RunSk(SkSample(s, h[1]), Tail(h))
 RunTb(s, h) == IF h = <<>> THEN s ELSE RunTb(TbSample(s, h[1]), Tail(h))
@@ -45,42 +107,15 @@ PermSet(n) ==
   ELSE {[i \in 1..n |-> IF i = j THEN j + 1 ELSE IF i = j + 1 THEN j ELSE i] : j \in 1..(n - 1)}
        \cup {[i \in 1..n |-> n + 1 - i]}
 PermInv ==
-  NoTrim =>
-    \A pm \in PermSet(Len(hist)) :
-      LET h == [i \in 1..Len(hist) |-> Samples[pm[i]]] IN
+  Plain /\ NoTrim =>
+    \A pm \in PermSet(Len(Samples)) :
+      LET h == [i \in 1..Len(Samples) |-> Samples[pm[i]]] IN
       CASE Which = "ctr" -> RunCtr(CtrInit, h) = ctr
         [] Which = "sub" -> RunSub(GridInit, h) = sub /\ RunSk(SkInit, h) = sk
-        [] Which = "tbl" -> RunTbl(GridInit, h) = tbl /\ RunTb(TbInit, h) = tb
+        [] Which = "tbl" -> RunTbl(GridInit, h) = tbl /\ TbCore(RunTb(TbInit, h)) = TbCore(tb)
         [] Which = "num" -> RunNum(NumInit, h) = num
         [] OTHER -> TRUE
 
-\* ---- expected observations -------------------------------------------------
-Pairs(f) == {<<k, f[k]>> : k \in DOMAIN f}
-QPoints == {0, 125, 250, 500, 750, 900, 990, 999, 1000}
-ObsCtr == [items |-> Pairs(ctr.cnt), total |-> CtrTotal(ctr), groups |-> Cardinality(DOMAIN ctr.cnt), errors |-> ctr.err]
-ObsSub == [subkeys |-> GridBs(sub),
-           rows |-> {<<a, GridRowSum(sub, a), {<<b, GridAt(sub, a, b)>> : b \in GridBs(sub)}>> : a \in GridAs(sub)},
-           errors |-> sub.err]
-ObsTbl == [cols |-> GridBs(tbl), dirty |-> tbl.dirty,
-           rows |-> {<<a, GridRowSum(tbl, a), {<<b, GridAt(tbl, a, b)>> : b \in GridBs(tbl)}>> : a \in GridAs(tbl)},
-           coltot |-> {<<b, GridColSum(tbl, b)>> : b \in GridBs(tbl)},
-           sum |-> GridSum(tbl), min |-> GridMinMax(tbl)[1], max |-> GridMinMax(tbl)[2], errors |-> tbl.err]
-ObsNum ==
-  LET m == IF num.n >= 1 THEN BToInt(num.s1) \div num.n ELSE 0
-      r == IF num.n >= 2 THEN ISqrt(BToInt(NumVar(num)[1]) \div BToInt(NumVar(num)[2])) ELSE 0
-  IN [n |-> num.n, errors |-> num.err,
-      mean3 |-> IF num.n >= 1 THEN {x \in (m - 1)..(m + 2) : MeanOK(num, x)} ELSE {},
-      sd3   |-> IF num.n >= 2 THEN {x \in (IF r < 2 THEN 0 ELSE r - 2)..(r + 3) : SdOK(num, x)} ELSE {},
-      min3 |-> IF num.n >= 1 THEN NumMin(num) ELSE 0, max3 |-> IF num.n >= 1 THEN NumMax(num) ELSE 0,
-      med3 |-> IF num.n >= 1 THEN <<ValueAt(num, MedianIdx(num.n), FALSE), ValueAt(num, MedianIdx(num.n), TRUE)>> ELSE <<>>,
-      modes |-> IF num.n >= 1 THEN Modes(num) ELSE {},
-      q |-> IF num.n >= 1 THEN {<<p3, ValueAt(num, QuantIdx(num.n, p3), FALSE), ValueAt(num, QuantIdx(num.n, p3), TRUE)>> :
-                                 p3 \in {p \in QPoints : QuantDomain(num.n, p)}} ELSE {}]
-ObsAcc == [groups |-> [j \in 1..Len(AccCfg.groups) |-> <<AccCfg.groups[j].name, PrintExpr(AccCfg.groups[j].e)>>],
-           cols |-> [j \in 1..Len(AccCfg.cols) |-> <<AccCfg.cols[j].name, AccCfg.cols[j].init, PrintExpr(AccCfg.cols[j].e)>>],
-           data |-> Pairs(acc)]
-Obs == CASE Which = "ctr" -> ObsCtr [] Which = "sub" -> ObsSub [] Which = "tbl" -> ObsTbl
-         [] Which = "num" -> ObsNum [] Which = "acc" -> ObsAcc
-
-Dump == PrintT("VFJ " \o ToJson([agg |-> Which, prof |-> Profile, h |-> hist, exp |-> Obs]))
+Dump == PrintT("VFJ " \o ToJson([agg |-> Which, prof |-> Profile, base |-> MCBaseText, h |-> hist, exp |-> Obs,
+                                 cfg |-> IF Which = "acc" THEN AccCfgOut ELSE NoObs]))
 =============================================================================
